@@ -148,6 +148,28 @@ def _decoy(spec):
     return d
 
 
+def _near_decoy(spec):
+    """The same spec with coordinates moved by a relative 4e-6 (+2e-6) -
+    'equal' for PixCoord.__eq__ - and the opposite include sense."""
+    d = dict(spec)
+    d['build'] = 'direct'
+    d.pop('num', None)           # float coordinates: the move must survive
+
+    def mv(t):
+        return float(t) * (1 + 4e-6) + 2e-6
+    for k in ('center', 'start', 'end'):
+        if k in d:
+            d[k] = [mv(d[k][0]), mv(d[k][1])]
+    if 'vertices' in d:
+        vx, vy = d['vertices']
+        d['vertices'] = [[mv(t) for t in vx], [mv(t) for t in vy]]
+        d.pop('origin', None)
+    inc = (spec.get('meta') or {}).get('include', True)
+    d['meta'] = {'include': not bool(inc), 'text': 'decoy'}
+    d['visual'] = {'color': 'black'}
+    return d
+
+
 def _touch(obj):
     from regions import PixCoord
     try:
@@ -194,6 +216,21 @@ def build(spec):
         order.sort(key=lambda p: (not p.startswith('outer'),))
         for p in order:
             setattr(obj, p, getattr(target, p))
+        obj.meta = target.meta
+        obj.visual = target.visual
+        return obj
+    if spec.get('build') == 'reuse' and cls in ASSIGNABLE:
+        # the same object, USED, then edited only slightly: coordinates moved
+        # by less than PixCoord.__eq__'s tolerance (rtol 1e-5) and the meta /
+        # visual objects REPLACED (include sense flipped) - a cache keyed on
+        # "parameters compare equal" or on the parameters alone stays stale
+        target = build(dict(spec, build='direct'))
+        obj = build(_near_decoy(spec))
+        _touch(obj)
+        for p in obj._params:
+            if p in ('center', 'start', 'end', 'vertices'):
+                setattr(obj, p, getattr(target, p))
+        _touch(obj)
         obj.meta = target.meta
         obj.visual = target.visual
         return obj
